@@ -335,3 +335,15 @@ Proof.
   rewrite two32_pow2. apply lxor_lt_pow2; [reflexivity|].
   unfold u32. apply N.mod_lt. discriminate.
 Qed.
+
+(* name used by DESIGN.md 3.3b for the Layer A -> Layer B lemma: neither Get nor a key iterator
+   skips a table that holds a version of the user key *)
+Lemma bloom_skip_sound ikeys fp_pos bitsPerKey bf ik :
+  build_bloom ikeys fp_pos bitsPerKey = Some bf -> In ik ikeys ->
+  (forall key, parse_key key = parse_key ik -> get_skips_table bf key = Some false) /\
+  pick_skips_table bf (parse_key ik) = Some false.
+Proof.
+  intros Hb Hin. split.
+  - intros key Hk. eapply get_never_skips; eauto.
+  - eapply pick_never_skips; eauto.
+Qed.
